@@ -149,7 +149,7 @@ def main():
                                 '-p no:cacheprovider --timeout=900 '
                                 '--continue-on-collection-errors',
             'source_commits': SOURCE_COMMITS,
-            'add_only': True,
+            'add_only': False,
         },
         'engines': [{
             'name': 'pyvc', 'path': 'pyvc/',
@@ -171,7 +171,18 @@ def main():
         f.write('\n')
 
 
-SOURCE_COMMITS = []
+SOURCE_COMMITS = [
+    '40dbd74 fix: VMDKInspector.format_match raised AttributeError before a descriptor was parsed',
+    '50b92d9 fix: VMDKInspector.virtual_size raised KeyError for text descriptors',
+    "c0fae74 fix: string_to_bytes('1kib', 'mixed') raised KeyError",
+    '010dee0 fix: address validators raised ValueError instead of returning False',
+    '58b33d1 fix: is_valid_mac accepted a MAC address followed by a newline',
+    'd22c554 fix: string_to_bytes accepted a trailing newline after the unit',
+    '11960c9 fix: check_string_length ignored max_length=0',
+    "db2dbfa fix: mask_password left the tail of unquoted secrets containing '^' unmasked",
+    '7b4ba01 fix: regions located from data completed in the same chunk were not followed up',
+    '699f41f fix: VHDX pointers behind the stream position made the verdict depend on chunking',
+]
 
 if __name__ == '__main__':
     main()
